@@ -8,12 +8,13 @@ import nixcases  # noqa: E402
 
 ID = "C12"
 THEOREMS = ["c12_creators", "c12_nested_creators", "c12_create_multi_tag", "c12_append", "c12_remove",
-            "c12_delete", "c12_set_attr", "c12_set_link", "c12_lookup", "c12_create_feature_refuted"]
+            "c12_delete", "c12_set_attr", "c12_set_link", "c12_lookup", "c12_create_feature_refuted",
+            "c12_dimension_calls", "c12_dimension_refusals_exact"]
 
 
 def run(ctx):
     thorough = ctx.tier == "thorough"
-    st = core.proof_stage(ctx, [], ["Nix/Check.vo", "Props/C12.vo"], "Props/C12.v", THEOREMS)
+    st = core.proof_stage(ctx, [], ["Nix/Check.vo", "Props/C12.vo", "Pure/DimLinkCheck.vo"], "Props/C12.v", THEOREMS)
     ctx.trusted_base = [
         "Coq 8.16.1 kernel; no native_compute",
         "hand-written model of the API calls as programs over the store (coq/Nix/Api.v, coq/H5/Store.v), tied to nixio by "
@@ -88,6 +89,12 @@ def run(ctx):
         "known_finding_instances": len(known), "disagreements": len(disagreements), "spec_failures": len(failures),
         "samples": [hists[0]["ops"][:6]],
     })
+    # dimension calls: every refusal class, on linked and unlinked dimensions
+    import dimlink
+    cov = dimlink.stage(ctx, st, 1200 if ctx.tier == "thorough" else 150, 18 if ctx.tier == "thorough" else 14,
+                        [dimlink.refusal_predicate])
+    ctx.coverage.update(cov)
+    ctx.coverage["evaluations"] += sum(cov["dimension_ops"].values())
     return st
 
 
